@@ -101,6 +101,8 @@ def rule_consumer_guards(P, R, rid):
     R.check(rid, ok, 'handshake results carry the time at which the handshake STARTED', 'accept|handshake-timestamp',
             ci.loc(), 'check_instance does not stamp its notifications with the monotonic time taken before the first '
             'XML-RPC: a result obtained across a new CHECKING entry passes the is_checking() guard')
+    from . import shared
+    shared.handshake_order(P, R, rid)
     u = P.unit('Context.on_identification_event')
     fm = factmap(u)
     idc = [c for c in own_nodes(u.node) if isinstance(c, ast.Call) and call_text(c) == 'self.mapper.identify']
